@@ -74,13 +74,22 @@ PageBody(ch, pg) ==
     \o (IF pg.enc = 0 THEN PlainEncode(ch.type, pg.vals)
         ELSE <<pg.bw>> \o Ser(pg.idxRuns, pg.bw))      \* the width byte is written even for an all-null page
 
+\* hostile-file hook (C04): a mutation of the UNCOMPRESSED page body (levels, values, indices), applied before
+\* compression and checksum, so that the page passes every size / CRC check and the damage reaches the decoders.
+\* "sub": one byte replaced; "cut": body truncated, header sizes follow; "cutkeep": truncated, header keeps the old size
+NoBodyMut == [kind |-> "none"]
+BodyMutOf(x) == IF "bmut" \in DOMAIN x THEN x.bmut ELSE NoBodyMut
+MutBody(b, m) == IF m.kind = "sub" THEN [b EXCEPT ![m.at] = m.val]
+                 ELSE IF m.kind \in {"cut", "cutkeep"} THEN SubSeq(b, 1, m.at) ELSE b
 DataPage(ch, pg, extras, sty) ==
-    LET body == PageBody(ch, pg)
+    LET body0 == PageBody(ch, pg)
+        bm == BodyMutOf(pg)
+        body == MutBody(body0, bm)
         stored == CompressW(ch.codec, body)
         dh == Struct(<<F(1, I(pg.n)), F(2, I(pg.encTag)), F(3, I(3)), F(4, I(3))>>
                      \o (IF pg.stats.has THEN <<F(5, StatsTree(pg.stats))>> ELSE <<>>)
                      \o (IF extras THEN ExtraFields(40) ELSE <<>>))
-        ph == Struct(<<F(1, I(0)), F(2, I(Len(body))), F(3, I(Len(stored)))>>
+        ph == Struct(<<F(1, I(0)), F(2, I(IF bm.kind = "cutkeep" THEN Len(body0) ELSE Len(body))), F(3, I(Len(stored)))>>
                      \o (IF pg.crc # "none" THEN <<F(4, CrcField(stored, pg.crc))>> ELSE <<>>)
                      \o <<F(5, dh)>>
                      \o (IF extras THEN ExtraFields(60) ELSE <<>>))
@@ -100,9 +109,11 @@ DataPageV2(ch, pg, sty) ==
     IN [bytes |-> hb \o body, hdrLen |-> Len(hb), ulen |-> Len(body), clen |-> Len(body)]
 
 DictPage(ch, sty) ==
-    LET body == PlainEncode(ch.type, ch.dict)
+    LET body0 == PlainEncode(ch.type, ch.dict)
+        bm == IF "dbmut" \in DOMAIN ch THEN ch.dbmut ELSE NoBodyMut
+        body == MutBody(body0, bm)
         stored == CompressW(ch.codec, body)
-        ph == Struct(<<F(1, I(2)), F(2, I(Len(body))), F(3, I(Len(stored))),
+        ph == Struct(<<F(1, I(2)), F(2, I(IF bm.kind = "cutkeep" THEN Len(body0) ELSE Len(body))), F(3, I(Len(stored))),
                        F(7, Struct(<<F(1, I(Len(ch.dict))), F(2, I(ch.dictEnc))>>))>>)
         hb == TSer(IF ch.dhmut.kind = "none" THEN ph ELSE Apply(ph, ch.dhmut), sty)     \* hostile-file hook (C04)
     IN [bytes |-> hb \o stored, hdrLen |-> Len(hb), ulen |-> Len(body), clen |-> Len(stored), tree |-> ph]
